@@ -97,7 +97,10 @@ def parsePath (path : Bytes) : Outcome (List PathEntry) :=
 
 /-! ## GetFileList -/
 
-/-- what `os.DirEntry` offers: `Name()`, `IsDir()` -/
+/-- what `GetFileList` sees of a directory entry: its name and whether the name leads to a directory.
+For a plain entry that is `e.IsDir()`; for a symbolic link it is what the link resolves to — the descent
+follows links (`os.ReadDir(dir + "/" + name)`), and since fix 8a86468 the last segment resolves a link with
+`os.Stat` before listing it (a link to a directory, or a dangling link, is not a file). -/
 structure DirEntry where
   name : Bytes
   isDir : Bool
